@@ -81,6 +81,20 @@ def run(ctx):
                                 % (pname, pn, m, " / ".join(s[5:] for s in srcs)), where=g.loc(t["line"]))
     ctx.floor("R1", n1, 40, "field / argument flows on the four copy paths")
 
+    # ---- R1b nothing is dropped on the way: the copy paths contain no filtering / truncating iterator adaptor
+    DROPPING = ("filter", "take", "skip", "take_while", "skip_while", "step_by", "nth", "last", "dedup", "dedup_by_key", "truncate",
+                "filter_map", "find", "find_map", "retain", "pop", "swap_remove", "split_off", "first", "min", "max")
+    for pname, root in paths.items():
+        hits = []
+        for g in P.family(root):
+            for bi, t in g.calls():
+                c = callee_name(t)
+                if c.split("::")[-1] in DROPPING and ("iter" in c or "alloc::vec" in c or "slice" in c or "collections" in c):
+                    hits.append((c.split("::")[-1], g.loc(t["line"])))
+        ctx.ob("R1b", "%s#no-dropping-adaptor" % pname, not hits,
+               what="GrafeoDB::%s passes the entities / labels / properties it copies through %s: part of the graph can be left out "
+                    "of the copy" % (pname, hits[:3]), where=root.loc())
+
     # ---- R2 enumerators and id-preserving constructors
     for pname, root in paths.items():
         R = P.reach([root], edge_filter=lambda x, y: True)
